@@ -14,8 +14,17 @@
 (*  {"e":"reset","maxCount":..,"limit":..,"cap":..,"maxDumps":..,          *)
 (*   "files":[{"id","size","lw","cur"}..],"ev":n,"dumps":[id..]}           *)
 (*      the directories found by the first run of this history             *)
-(*  {"e":"write","n":bytes,"files":[{"id","size","cur"}..]}  one log write *)
-(*  {"e":"ev","kind":"push"|"tick"|"remove","ev":n}          event dir     *)
+(*  {"e":"write","n":bytes,"ok":0|1,"files":[{"id","size","cur"}..]}       *)
+(*      one log write; ok=0: the logger REFUSED it (returned an error).    *)
+(*      A refused write is accepted like any other: the bounds are what is *)
+(*      checked, on the sizes found afterwards (a file whose size changed  *)
+(*      took this write, whatever the logger answered)                     *)
+(*  {"e":"fault","kind":"pin"|"unpin"}   the environment makes the rename  *)
+(*      of the current log file fail from now on / no longer               *)
+(*  {"e":"ev","kind":"push"|"tick"|"stop"|"remove","ev":n}   event dir;    *)
+(*      "stop": event_logger::stop() handled and the task ended (its last  *)
+(*      flush included): the cap and no-growth-at-cap are evaluated on     *)
+(*      this step like on every other step of the logger                   *)
 (*  {"e":"dump","dumps":[id..]}                              write_all     *)
 (*  {"e":"restart"}                                                        *)
 (* File ids are assigned by the check in order of creation (log files are  *)
@@ -34,8 +43,8 @@ tvars == <<vars, l, conf, files>>
 NoConf == [maxCount |-> 0, limit |-> 0, cap |-> 0, maxDumps |-> 0]
 
 TInit == /\ l = 1 /\ conf = NoConf /\ files = <<>>
-         /\ arch = <<>> /\ cur = -1 /\ lw = 0 /\ rolled = FALSE /\ logLegal = TRUE /\ debt = 0
-         /\ evFiles = 0 /\ evQueue = 0 /\ evLegal = TRUE
+         /\ arch = <<>> /\ cur = -1 /\ lw = 0 /\ rolled = FALSE /\ logLegal = TRUE /\ debt = 0 /\ rollFails = FALSE
+         /\ evFiles = 0 /\ evQueue = 0 /\ evRun = TRUE /\ evLegal = TRUE
          /\ dumps = <<>> /\ nextId = 0 /\ dLegal = TRUE /\ dWritten = FALSE
 
 IsCur(f) == f.cur = 1
@@ -51,13 +60,13 @@ Reset ==
   /\ conf' = [maxCount |-> Rec[l].maxCount, limit |-> Rec[l].limit, cap |-> Rec[l].cap, maxDumps |-> Rec[l].maxDumps]
   /\ files' = Rec[l].files
   /\ Project(files')
-  /\ rolled' = FALSE /\ debt' = 0
+  /\ rolled' = FALSE /\ debt' = 0 /\ rollFails' = FALSE
   /\ logLegal' = (Len(ArchOf(files')) + 1 <= Rec[l].maxCount)
-  /\ evFiles' = Rec[l].ev /\ evQueue' = 0 /\ evLegal' = (Rec[l].ev <= Rec[l].cap)
+  /\ evFiles' = Rec[l].ev /\ evQueue' = 0 /\ evRun' = TRUE /\ evLegal' = (Rec[l].ev <= Rec[l].cap)
   /\ dumps' = Rec[l].dumps /\ nextId' = 0 /\ dLegal' = (Len(Rec[l].dumps) <= Rec[l].maxDumps) /\ dWritten' = FALSE
   /\ l' = l + 1
 
-\* one write of n bytes: a file that is new or whose size changed took this write
+\* one write of n bytes (accepted or refused by the logger): a file that is new or whose size changed took this write
 Write ==
   /\ l <= Len(Rec) /\ Rec[l].e = "write"
   /\ LET new == Rec[l].files
@@ -69,12 +78,20 @@ Write ==
                               THEN files[CHOOSE j \in DOMAIN files : Same(k, j)].lw
                               ELSE n]]
   /\ Project(files')
-  /\ UNCHANGED <<conf, rolled, logLegal, debt, evVars, dumpVars>>
+  /\ UNCHANGED <<conf, rolled, logLegal, debt, rollFails, evVars, dumpVars>>
+  /\ l' = l + 1
+
+\* the environment switches the rename fault on / off: no file changes
+Fault ==
+  /\ l <= Len(Rec) /\ Rec[l].e = "fault"
+  /\ rollFails' = (Rec[l].kind = "pin")
+  /\ UNCHANGED <<conf, files, arch, cur, lw, rolled, logLegal, debt, evVars, dumpVars>>
   /\ l' = l + 1
 
 Ev ==
   /\ l <= Len(Rec) /\ Rec[l].e = "ev"
   /\ evFiles' = Rec[l].ev
+  /\ evRun' = IF Rec[l].kind = "stop" THEN FALSE ELSE evRun
   /\ UNCHANGED <<conf, files, logVars, evQueue, evLegal, dumpVars>>
   /\ l' = l + 1
 
@@ -86,10 +103,11 @@ Dump ==
 
 TRestart ==
   /\ l <= Len(Rec) /\ Rec[l].e = "restart"
-  /\ UNCHANGED <<vars, conf, files>>
+  /\ evRun' = TRUE
+  /\ UNCHANGED <<logVars, evFiles, evQueue, evLegal, dumpVars, conf, files>>
   /\ l' = l + 1
 
-TNext == Reset \/ Write \/ Ev \/ Dump \/ TRestart
+TNext == Reset \/ Write \/ Fault \/ Ev \/ Dump \/ TRestart
 TSpec == TInit /\ [][TNext]_tvars
 
 -----------------------------------------------------------------------------
@@ -98,7 +116,8 @@ T_LogCount == logLegal => P_LogCount(arch, cur, conf.maxCount)
 T_LogSize == \A k \in DOMAIN files : P_LogSize(files[k].size, files[k].lw, conf.limit)
 T_EvCount == evLegal => P_EvCount(evFiles, conf.cap)
 T_DumpCount == (dLegal \/ dWritten) => P_DumpCount(dumps, conf.maxDumps)
-\* steps of the event logger itself (not the reader's removals) never add a file at or above the cap
+\* steps of the event logger itself -- pushes, periodic flushes AND the stop with its last flush; not the reader's
+\* removals -- never add a file at or above the cap
 T_EvDropAtCap == [][(l <= Len(Rec) /\ Rec[l].e = "ev" /\ Rec[l].kind # "remove")
                       => P_EvNoGrowthAtCap(evFiles, evFiles', conf.cap)]_tvars
 T_DumpOldestFirst == [][(l <= Len(Rec) /\ Rec[l].e = "dump") => P_RemovedAreOldest(dumps, dumps')]_tvars
